@@ -432,12 +432,26 @@ def interp(repo: Repo) -> List[Ob]:
             if not it_ok:
                 problems.append(f"the fold iterates `{src(loop.iter)}` instead of {argsname}[1:]")
             upd = None
+            unrecognised = False
+            lambdas = {src(x.targets[0]): x.value for x in body if isinstance(x, ast.Assign) and isinstance(x.value, ast.Lambda)}
             for s in loop.body:
                 if isinstance(s, ast.AugAssign) and src(s.target) == acc:
                     k2 = {ast.Add: "add", ast.Mult: "mul", ast.MatMult: "matmul", ast.Sub: "sub", ast.Div: "div"}.get(type(s.op))
                     upd = (k2, "ACC", s.value)
                 elif isinstance(s, ast.Assign) and src(s.targets[0]) == acc:
-                    b = _binop_kind(s.value)
+                    v = s.value
+                    # beta-reduce a call of a local two-parameter lambda: f(x, y) with f = lambda a, b: a <op> b
+                    if isinstance(v, ast.Call) and isinstance(v.func, ast.Name) and v.func.id in lambdas and len(v.args) == 2:
+                        lam = lambdas[v.func.id]
+                        ps = [a.arg for a in lam.args.args]
+                        if len(ps) == 2:
+                            import copy as _copy
+
+                            class _B(ast.NodeTransformer):
+                                def visit_Name(self, n):
+                                    return _copy.deepcopy(v.args[ps.index(n.id)]) if n.id in ps else n
+                            v = _B().visit(_copy.deepcopy(lam.body))
+                    b = _binop_kind(v)
                     if b:
                         kk, l, r = b
                         if src(l) == acc:
@@ -445,7 +459,7 @@ def interp(repo: Repo) -> List[Ob]:
                         elif src(r) == acc:
                             upd = (kk, "NEXT-LEFT", l)
             if upd is None:
-                problems.append("accumulator update not recognised")
+                unrecognised = True
             else:
                 kk, side, other = upd
                 oa = _rec_arg(other, fname)
@@ -458,6 +472,9 @@ def interp(repo: Repo) -> List[Ob]:
             rets = [s for s in body if isinstance(s, ast.Return)]
             if not rets or src(rets[-1].value) != acc:
                 problems.append("the arm does not return the accumulator")
+            if unrecognised and not problems:
+                obs.append(skip("INTERP", fi, key, P, arm if isinstance(arm, ast.If) else fn, "accumulator update idiom not recognised"))
+                continue
             (obs.append(bad("INTERP", fi, key, P, arm if isinstance(arm, ast.If) else fn, "; ".join(problems))) if problems else
              obs.append(ok("INTERP", fi, key, P, arm if isinstance(arm, ast.If) else fn, f"left fold of {want} over the arguments in order")))
         elif cmd in BINARY:
